@@ -665,3 +665,73 @@ Proof.
   intros Hc Hq Hr H. apply (write_wakes_exactly_related n s k p e [] Hc Hq Hr) in H.
   destruct H as [r [[] _]].
 Qed.
+
+(** ---- keyed readers and the freshness of the keys (open finding F-C16-e) ---- *)
+
+(** the recorded indices of a FieldKeys agree with the collection's current content *)
+Definition keys_synced (f : fkeys) (v : sexp) : Prop :=
+  forall k seg idx, fk_get k f = Some (seg, idx) ->
+    exists it, nth_error (as_list v) idx = Some it /\ item_key it = k.
+
+(** the KeyMap entry a keyed step at [p] will use is in sync with the collection [v]
+    (an absent entry is created from [v] itself) *)
+Definition entry_synced (km : keymap) (p : path) (v : sexp) : Prop :=
+  match km_find p km with
+  | Some f => keys_synced f v
+  | None => NoDup (keys_of v)
+  end.
+
+Lemma fk_new_synced v : NoDup (keys_of v) -> keys_synced (fk_new (keys_of v)) v.
+Proof.
+  intros Hnd k seg idx Hg. unfold fk_get in Hg. rewrite (fk_new_keys _ Hnd) in Hg.
+  apply assoc_In in Hg. apply in_map_iff in Hg. destruct Hg as [[k' i] [Heq Hin]].
+  cbn [fst snd] in Heq. inversion Heq; subst.
+  assert (Hn : nth_error (keys_of v) idx = Some k).
+  { assert (G : forall l b, In (k, idx) (enumerate_from b l) -> b <= idx /\ nth_error l (idx - b) = Some k).
+    { induction l as [|x l IH]; intros b H; cbn [enumerate_from In] in H; [destruct H|].
+      destruct H as [H|H].
+      - inversion H; subst. rewrite Nat.sub_diag. split; [lia | reflexivity].
+      - destruct (IH (S b) H) as [Hle Hnth]. split; [lia|].
+        replace (idx - b) with (S (idx - S b)) by lia. exact Hnth. }
+    destruct (G _ _ Hin) as [_ Hn]. replace (idx - 0) with idx in Hn by lia. exact Hn. }
+  unfold keys_of in Hn. rewrite nth_error_map in Hn.
+  destruct (nth_error (as_list v) idx) as [it|]; [|discriminate].
+  cbn [option_map] in Hn. inversion Hn. exists it. split; reflexivity.
+Qed.
+
+(** update_keys() (run by the keyed field's own write guard and by its iterator) restores the sync *)
+Theorem update_restores_sync c1 c2 f v :
+  fk_wf f -> NoDup (keys_of v) -> keys_synced (fk_update c1 c2 f (keys_of v)) v.
+Proof.
+  intros Hwf Hnd k seg idx Hg.
+  pose proof (index_is_position c1 c2 f (keys_of v) Hwf Hnd k seg idx Hg) as Hn.
+  unfold keys_of in Hn. rewrite nth_error_map in Hn.
+  destruct (nth_error (as_list v) idx) as [it|]; [|discriminate].
+  cbn [option_map] in Hn. inversion Hn. exists it. split; reflexivity.
+Qed.
+
+(** except in the known class (keys out of sync), a keyed step reaches the item that carries
+    the reader's key *)
+Theorem keyed_step_reads_own_key_except_known r v k s0 it :
+  r_sh r = SKeyed s0 -> entry_synced (r_keys r) (r_segs r) v ->
+  r_val (extend r v (Key k)) = Some it -> item_key it = k.
+Proof.
+  intros Hsh Hsync Hval. unfold extend in Hval. rewrite Hsh in Hval.
+  unfold entry_synced in Hsync. unfold km_entry in Hval.
+  destruct (km_find (r_segs r) (r_keys r)) as [f|] eqn:E.
+  - destruct (fk_get k f) as [[seg idx]|] eqn:G; cbn [r_val] in Hval; [|discriminate].
+    destruct (Hsync k seg idx G) as [it' [Hn Hk]]. rewrite Hn in Hval. inversion Hval as [Heq]. rewrite <- Heq. exact Hk.
+  - destruct (fk_get k (fk_new (keys_of v))) as [[seg idx]|] eqn:G; cbn [r_val] in Hval; [|discriminate].
+    destruct (fk_new_synced v Hsync k seg idx G) as [it' [Hn Hk]]. rewrite Hn in Hval. inversion Hval as [Heq]. rewrite <- Heq. exact Hk.
+Qed.
+
+(** the known class is inhabited: after `store.set(...)` reordered the keyed collection
+    [7; 8; 9] into [9; 8; 7] (no update_keys), the reader of key 7 reaches the item of key 9 *)
+Example keyed_reader_follows_key_refuted :
+  let sh := SStruct [SKeyed (SStruct [SInt; SInt])] in
+  let it k n := Lst [Num k; Num n] in
+  let v := Lst [Lst [it 7%Z 70%Z; it 8%Z 80%Z; it 9%Z 90%Z]] in
+  let v' := Lst [Lst [it 9%Z 90%Z; it 8%Z 80%Z; it 7%Z 70%Z]] in
+  let s := after sh [(false, [Fld 0; Key 7%Z])] [] [] v [HSet [] v'] in
+  r_val (fst (walk (root_reached sh s) [Fld 0; Key 7%Z] 0)) = Some (it 9%Z 90%Z).
+Proof. vm_compute. reflexivity. Qed.
